@@ -67,8 +67,10 @@ func zeroOf(k lty) string {
 		return `""`
 	case kErr:
 		return "none"
-	case kBytes, kCoins:
+	case kBytes, kCoins, kOList:
 		return "[]"
+	case kPtrSdk:
+		return "none"
 	case kUnit:
 		return "()"
 	}
@@ -158,6 +160,7 @@ func (f *fnCtx) expr(e ast.Expr) string {
 	if tv, ok := f.info.Types[e]; ok && tv.Value != nil {
 		return f.constTerm(tv.Value, f.g.classify(tv.Type), e)
 	}
+	f.bindIndexRoots(e)
 	switch x := e.(type) {
 	case *ast.ParenExpr:
 		return f.expr(x.X)
@@ -227,12 +230,19 @@ func (f *fnCtx) expr(e ast.Expr) string {
 			}
 		case token.ADD:
 			return f.expr(x.X)
+		case token.AND:
+			if k.k == kSdk {
+				return "(some " + f.atom(f.expr(x.X)) + ")"
+			}
 		}
 		trFail("unary %s", f.src(e))
 	case *ast.BinaryExpr:
 		return f.binary(x)
 	case *ast.IndexExpr:
 		k := f.kindOf(x.X)
+		if k.k == kOList {
+			trFail("element of an opaque slice used as a value: %s", f.src(e))
+		}
 		if k.k == kCoins || k.k == kBytes {
 			xs := f.atom(f.expr(x.X))
 			i := f.asInt(x.Index)
@@ -244,6 +254,47 @@ func (f *fnCtx) expr(e ast.Expr) string {
 	}
 	trFail("expression %s (%T)", f.src(e), e)
 	return ""
+}
+
+// bindIndexRoots: `xs[i]` of a slice of opaque objects inside an accessor chain is bound to a name first
+// (`match Go.idx xs i with | none => none | some el => …`), the chain then continues from `el`
+func (f *fnCtx) bindIndexRoots(e ast.Expr) {
+	var walk func(n ast.Expr)
+	walk = func(n ast.Expr) {
+		switch x := n.(type) {
+		case *ast.ParenExpr:
+			walk(x.X)
+		case *ast.SelectorExpr:
+			walk(x.X)
+		case *ast.StarExpr:
+			walk(x.X)
+		case *ast.TypeAssertExpr:
+			walk(x.X)
+		case *ast.CallExpr:
+			if sel, ok := x.Fun.(*ast.SelectorExpr); ok {
+				walk(sel.X)
+			}
+		case *ast.IndexExpr:
+			if _, done := f.idxRoot[x]; done {
+				return
+			}
+			k := f.g.classifySafe(f.typeOf(x.X))
+			if k.k != kOList {
+				return
+			}
+			walk(x.X)
+			xs := f.atom(f.expr(x.X))
+			i := f.atom(f.asInt(x.Index))
+			o := types.NewVar(token.NoPos, f.pkg.Types, "el", f.typeOf(x))
+			f.roots[o] = k.opaque
+			f.loopRoots = append(f.loopRoots, o)
+			f.idxRoot[x] = o
+			f.emit("match Go.idx " + xs + " " + i + " with")
+			f.emit("| none => none")
+			f.emit("| some " + f.nameOf(o) + " =>")
+		}
+	}
+	walk(e)
 }
 
 // asInt: an integer expression as a Lean Int
@@ -287,6 +338,7 @@ func (f *fnCtx) binary(x *ast.BinaryExpr) (out string) {
 		// anything boolean that cannot be interpreted becomes an uninterpreted condition on an opaque object
 		snap := f.g.snapshotFields()
 		nlines := len(f.lines)
+		idxSnap := cpMap(f.idxRoot)
 		defer func() {
 			if r := recover(); r != nil {
 				if _, isTr := r.(trError); !isTr {
@@ -294,6 +346,7 @@ func (f *fnCtx) binary(x *ast.BinaryExpr) (out string) {
 				}
 				f.g.restoreFields(snap)
 				f.lines = f.lines[:nlines]
+				f.idxRoot = idxSnap
 				if t, ok := f.boolOpaque(x); ok {
 					out = t
 					return
@@ -310,7 +363,7 @@ func (f *fnCtx) binary(x *ast.BinaryExpr) (out string) {
 		}
 		ok := f.kindOf(other)
 		var isNil string
-		if p, args, isPath := f.pathOf(other); isPath && args == nil && ok.k != kErr {
+		if p, args, isPath := f.pathOf(other); isPath && args == nil && ok.k != kErr && ok.k != kPtrSdk {
 			if len(p.segs) == 0 {
 				f.g.field(p.st, "isNil", "Bool", "")
 				isNil = f.nameOf(p.root) + ".isNil"
@@ -319,7 +372,7 @@ func (f *fnCtx) binary(x *ast.BinaryExpr) (out string) {
 				f.g.field(p.st, field, "Bool", "")
 				isNil = f.nameOf(p.root) + "." + field
 			}
-		} else if ok.k == kErr {
+		} else if ok.k == kErr || ok.k == kPtrSdk {
 			isNil = "(" + f.atom(f.expr(other)) + ").isNone"
 		} else if ok.k == kBytes || ok.k == kCoins {
 			trFail("nil comparison of a slice: %s", f.src(x))
@@ -574,7 +627,7 @@ func (f *fnCtx) call(c *ast.CallExpr, stmt bool) string {
 			switch id.Name {
 			case "len":
 				k := f.g.classifySafe(f.typeOf(c.Args[0]))
-				if k.k == kBytes || k.k == kCoins {
+				if k.k == kBytes || k.k == kCoins || k.k == kOList {
 					return "((" + f.atom(f.expr(c.Args[0])) + ".length : Nat) : Int)"
 				}
 				if k.k == kStr {
@@ -638,6 +691,9 @@ func (f *fnCtx) call(c *ast.CallExpr, stmt bool) string {
 		switch rk.k {
 		case kBig:
 			return f.bigCall(sel.X, m, c)
+		case kPtrSdk:
+			v := f.partial(f.atom(f.expr(sel.X))) // a nil pointer dereference panics
+			return f.sdkCall(v, m, c)
 		case kSdk:
 			return f.sdkCall(f.atom(f.expr(sel.X)), m, c)
 		case kDec:
@@ -687,6 +743,11 @@ func (f *fnCtx) call(c *ast.CallExpr, stmt bool) string {
 			return "()"
 		}
 		return f.pathValue(p, args, rt, c)
+	}
+	if !stmt {
+		if vals, ok := f.opaqueCall(c, 1); ok {
+			return vals[0]
+		}
 	}
 	if stmt {
 		if tv, ok := f.info.Types[c]; ok {
@@ -773,6 +834,12 @@ func (f *fnCtx) pkgCall(path, name string, c *ast.CallExpr) string {
 		return "(1 : Int)"
 	case "cosmossdk.io/math.NewIntFromBigInt":
 		return f.partial("Go.sdkInt " + arg(0))
+	case "github.com/cosmos/cosmos-sdk/types.NewCoin":
+		return f.partial("Go.newCoin " + arg(0) + " " + arg(1))
+	case "github.com/cosmos/cosmos-sdk/types.NewCoins":
+		if len(c.Args) == 1 {
+			return "(Go.newCoins1 " + arg(0) + ")"
+		}
 	case "github.com/ethereum/go-ethereum/common/math.BigMax":
 		return "(max " + arg(0) + " " + arg(1) + ")"
 	case "github.com/ethereum/go-ethereum/common/math.BigMin":
@@ -926,4 +993,58 @@ func (f *fnCtx) decCall(r, m string, c *ast.CallExpr) string {
 func shortHash(s string) string {
 	h := sha1sum(s)
 	return h[:8]
+}
+
+// opaqueCall: a call of a function that is not a target, all of whose arguments are opaque objects: an uninterpreted
+// (but named) accessor of the first object — `checkTxFeeWithValidatorMinGasPrices(ctx, feeTx)` ↦ `ctx.call_check…_feeTx`
+func (f *fnCtx) opaqueCall(c *ast.CallExpr, n int) ([]string, bool) {
+	fn := f.calleeFunc(c)
+	if fn == nil || fn.Type().(*types.Signature).Recv() != nil || len(c.Args) == 0 {
+		return nil, false
+	}
+	var first *pathVal
+	name := "call_" + fn.Name()
+	for i, a := range c.Args {
+		p, args, ok := f.pathOf(a)
+		if !ok || args != nil {
+			return nil, false
+		}
+		if i == 0 {
+			pp := p
+			first = &pp
+			if len(p.segs) > 0 {
+				name = strings.Join(p.segs, "_") + "_" + name
+			}
+		} else {
+			name += "_" + strings.Join(append([]string{p.root.Name()}, p.segs...), "_")
+		}
+	}
+	res := fn.Type().(*types.Signature).Results()
+	if res.Len() != n {
+		return nil, false
+	}
+	var ts []string
+	for i := 0; i < res.Len(); i++ {
+		k := f.g.classifySafe(res.At(i).Type())
+		if k.k == kOpaque || k.k == kUnit || k.k == kFunc {
+			return nil, false
+		}
+		ts = append(ts, k.lean)
+	}
+	lt := ts[0]
+	if len(ts) > 1 {
+		lt = "(" + strings.Join(ts, " × ") + ")"
+	}
+	f.g.field(first.st, name, lt, "uninterpreted call: "+exprFull(c))
+	f.g.opaqueC = append(f.g.opaqueC, f.lean+": call "+exprFull(c))
+	term := f.nameOf(first.root) + "." + name
+	if n == 1 {
+		return []string{term}, true
+	}
+	var vs []string
+	for range ts {
+		vs = append(vs, f.tmp())
+	}
+	f.emit("let (" + strings.Join(vs, ", ") + ") := " + term)
+	return vs, true
 }
